@@ -1608,3 +1608,79 @@ def rt_c09(tier="quick", first_only=False, count=None):
     if count is not None:
         count.append(n)
     return fails
+
+
+# --------------------------------------------------------------------------------------
+# C04 (bounded stand-in): deterministic quadrature of exp(log_prob) and a fixed-seed KS statistic
+def c04_configs(tier):
+    import flowjax.bijections as B
+    import flowjax.distributions as Dm
+    import flowjax.flows as Fl
+    import jax.random as jr
+
+    k = jr.PRNGKey(0)
+    n1, n2 = Dm.Normal(jnp.zeros(1), jnp.ones(1)), Dm.Normal(jnp.zeros(2), jnp.ones(2))
+    cfg = [("planar_flow(dim=1, tanh)", _perturb(Fl.planar_flow(k, base_dist=n1, flow_layers=2), 1, 0.7), None),
+           ("planar_flow(dim=1, leaky 0.3, invert=False)", _perturb(Fl.planar_flow(k, base_dist=n1, flow_layers=2, negative_slope=0.3, invert=False), 2, 0.7), None),
+           ("masked_autoregressive_flow(dim=1)", _perturb(Fl.masked_autoregressive_flow(k, base_dist=n1, flow_layers=2, nn_width=4), 3, 0.5), None),
+           ("Transformed(Normal, LeakyTanh o spline o LeakyTanh^-1) dim=1", Dm.Transformed(n1, B.Chain([B.LeakyTanh(1.0, (1,)), B.Vmap(build_spline_perturbed(4, (-1.0, 1.0), 5), axis_size=1), B.Invert(B.LeakyTanh(1.0, (1,)))])), None),
+           ("planar_flow(dim=2, leaky 2.0)", _perturb(Fl.planar_flow(k, base_dist=n2, flow_layers=2, negative_slope=2.0), 6, 1.0), None)]
+    if tier == "thorough":
+        cfg += [("coupling_flow(dim=2)", _perturb(Fl.coupling_flow(k, base_dist=n2, flow_layers=2, nn_width=4), 4, 0.2), None),
+                ("masked_autoregressive_flow(dim=2, cond)", _perturb(Fl.masked_autoregressive_flow(k, base_dist=n2, cond_dim=1, flow_layers=2, nn_width=4), 7, 0.5), 1),
+                ("coupling_flow(dim=2, invert=False, spline transformer)", _perturb(Fl.coupling_flow(k, base_dist=n2, transformer=B.RationalQuadraticSpline(knots=4, interval=3), flow_layers=2, nn_width=4, invert=False), 8, 0.5), None),
+                ("planar_flow(dim=2, tanh, cond)", _perturb(Fl.planar_flow(k, base_dist=n2, cond_dim=1, flow_layers=2, width_size=4, depth=1), 9, 0.5), 1)]
+        try:
+            cfg.append(("Transformed(Normal, Invert(BlockAutoregressiveNetwork)) dim=2", Dm.Transformed(n2, B.Invert(_perturb(B.BlockAutoregressiveNetwork(k, dim=2, depth=1, block_dim=2), 10, 0.3))), None))
+        except Exception:  # noqa: BLE001
+            pass
+    return cfg
+
+
+def rt_c04(tier="quick", first_only=False, count=None):
+    import jax.random as jr
+
+    fails, n = [], 0
+    for name, d, cd in c04_configs(tier):
+        dim = d.shape[0]
+        for cval in ([None] if cd is None else [jnp.array([0.5]), jnp.array([-1.3])]):
+            n += 1
+            lp = jax.jit(lambda pts, cval=cval: d.log_prob(pts, cval))
+            key = jr.PRNGKey(11)
+            try:
+                smp = np.asarray(d.sample(key, (20000,), cval))
+            except NotImplementedError:
+                smp = None  # e.g. planar(tanh) has no analytic inverse: only the density side can be evaluated
+            case = dict(config=name, condition=None if cval is None else float(cval[0]))
+            if dim == 1:
+                g = np.linspace(-60, 60, 120001)
+                p = np.exp(np.asarray(lp(jnp.asarray(g)[:, None])))
+                total = np.trapezoid(p, g)
+                cdf = np.concatenate([[0.0], np.cumsum((p[1:] + p[:-1]) / 2 * np.diff(g))])
+                margs = [(g, cdf, smp[:, 0])] if smp is not None else []
+            else:
+                g = np.linspace(-30, 30, 1201)
+                X, Y = np.meshgrid(g, g, indexing="ij")
+                pts = jnp.asarray(np.stack([X.ravel(), Y.ravel()], 1))
+                p = np.exp(np.asarray(lp(pts))).reshape(X.shape)
+                total = np.trapezoid(np.trapezoid(p, g, axis=1), g)
+                margs = []
+                for ax in (0, 1):
+                    m = np.trapezoid(p, g, axis=1 - ax)
+                    cdf = np.concatenate([[0.0], np.cumsum((m[1:] + m[:-1]) / 2 * np.diff(g))])
+                    if smp is not None:
+                        margs.append((g, cdf, smp[:, ax]))
+            if not abs(total - 1.0) < 5e-3:
+                fails.append(dict(what=f"{name}: exp(log_prob) integrates to {total:.5f} (deterministic quadrature), not 1", case=case))
+            for ax, (gg, cdf, s) in enumerate(margs):
+                s = np.sort(s)
+                F = np.interp(s, gg, cdf / max(cdf[-1], 1e-300))
+                emp_hi, emp_lo = np.arange(1, len(s) + 1) / len(s), np.arange(0, len(s)) / len(s)
+                D = max(np.max(np.abs(emp_hi - F)), np.max(np.abs(emp_lo - F)))
+                if D > 0.035:  # n = 20000: P(D > 0.0232) < 1e-9 under the null; slack for the quadrature of the CDF
+                    fails.append(dict(what=f"{name}: samples disagree with the density (KS statistic {D:.4f} on coordinate {ax}, n=20000, threshold 0.035)", case=case))
+            if first_only and fails:
+                return fails
+    if count is not None:
+        count.append(n)
+    return fails
